@@ -279,6 +279,11 @@ def fromXA {α} (xa : XA α) : M (XFld α) :=
   (meshOf xa cell).bind fun m =>
   fieldOf xa m k
 
+/-- the geometry steps alone (spec layer; `Lemmas/C17Rebuild.fromXA_eq`: the importer is the
+component-count checks, then these steps, then `fieldOf`) -/
+def geometryOf {α} (xa : XA α) : M Mesh :=
+  (checkSpacing xa).bind fun _ => (cellOf xa).bind fun cell => meshOf xa cell
+
 /-- what can be passed to `from_xarray` -/
 inductive PyObj (α : Type) where
   | dataArray (xa : XA α)
@@ -316,6 +321,10 @@ structure XFld.WF {α} (f : XFld α) : Prop where
   shape : f.data.shape = f.mesh.n ++ [f.nvdim]
   novd : ¬ "vdims" ∈ f.mesh.region.dims
   labels : ∀ l, f.vdims = some l → l.length = f.nvdim ∧ hasDup l = false
+
+/-- the label states the exporter can represent: vector fields with labels, scalar fields
+without (the label coordinate is written only for `nvdim > 1`) -/
+def LabelsStd {α} (f : XFld α) : Prop := (1 < f.nvdim → f.vdims ≠ none) ∧ (f.nvdim = 1 → f.vdims = none)
 
 /-- decidable form, evaluated by the driver on the states of real fields -/
 def XFld.wfB {α} (f : XFld α) : Bool :=
